@@ -102,6 +102,12 @@ class Backend:
         """Hash using the backend module."""
         return hash(self._xp_)
 
+    def __eq__(self, other: object) -> bool:
+        """Backends are equal if they wrap the same array module."""
+        if not isinstance(other, Backend):
+            return NotImplemented
+        return self._xp_ is other._xp_
+
     def __repr__(self) -> str:
         return f"Backend<{self.name}>"
 
